@@ -541,4 +541,40 @@ Proof. unfold qremove. intros H (Hnd & Hlt & Ht & Hle & Hf). apply bind_ok in H 
   - unfold IdInv. cbn [root nextid ttid tids]. split; [eapply cut_nodup; eauto|]. split; [intros j Hj; apply Hlt; apply Hi; exact Hj|]. auto.
   - intros HC j Hj. cbn [root tids ttid] in *. apply HC. apply Hi. exact Hj.
 Qed.
+
+(* ---- C03: a walk started with a zeroed cursor ---- *)
+Lemma walk_first n s acc : root s <> E ->
+  walk_n (S n) s cursor0 acc = walk_n (S n) (reset_iter s) (ttid (reset_iter s), rootid (root s)) acc.
+Proof. intros HR. cbn [walk_n]. unfold cursor0. rewrite (qgetnext_first s 0%N HR).
+  destruct (qgetnext (reset_iter s) (ttid (reset_iter s), rootid (root s))) as [[[s1 c1] [kv1|]]| |]; reflexivity. Qed.
+
+Theorem fresh_walk_seq s n : Inv s -> IdInv s ->
+  exists s', walk_n n s cursor0 [] = Ok (s', firstn n (abs s), Nat.ltb (length (abs s)) n) /\
+    root s' = root s /\ num s' = num s /\ nextid s' = nextid s /\ Inv s' /\ IdInv s' /\
+    (Nat.ltb (length (abs s)) n = true -> Clean s') /\ (n = 0 -> s' = s).
+Proof. intros HInv HI.
+  assert (Hex : exists s', walk_n n s cursor0 [] = Ok (s', firstn n (abs s), Nat.ltb (length (abs s)) n) /\ (n = 0 -> s' = s)).
+  { destruct n as [|n]; [exists s; split; reflexivity|].
+    destruct (root s) as [|c l x r] eqn:R.
+    - exists s. split; [|discriminate]. cbn [walk_n]. unfold qgetnext, cursor0. cbn [snd]. rewrite R. cbn [bind]. unfold abs. rewrite R. reflexivity.
+    - rewrite walk_first by (rewrite R; discriminate). set (s1 := reset_iter s).
+      assert (R1 : root s1 = T c l x r) by (unfold s1; rewrite reset_root; exact R).
+      pose proof HI as (Hnd & _). rewrite R in Hnd.
+      set (m := mkMst (Some (nid x)) (tids s1) (nexts s1)).
+      destruct (walk_sub (T c l x r) (ttid s1) (T c l x r) m (nid x) eq_refl (lookup_sub _ Hnd) Hnd eq_refl) as (N & m' & Hrun & Hc & _ & _ & HN).
+      assert (Hv : vis (ttid s1) (mtids m) (T c l x r) = ids (T c l x r)).
+      { apply vis_all. intros j _. unfold st. cbn [mtids m]. apply N.eqb_neq. pose proof (reset_lt s HI j). fold s1 in H. lia. }
+      rewrite Hv in Hrun.
+      assert (Hc0 : cur m' = None).
+      { rewrite Hc. cbn [mnexts m]. unfold s1. rewrite reset_nexts, R. cbn [rootid]. apply PM.grs. }
+      destruct (walk_n_run (elements (T c l x r)) (S n) s1 (ttid s1) (nid x) [] m' N) as (s' & Hw).
+      + rewrite R1. exact Hrun.
+      + exact Hc0.
+      + unfold gn_fuel. rewrite R1. lia.
+      + rewrite R1. apply Forall_forall. intros y Hy. apply getn_elem; auto.
+      + exists s'. split; [|discriminate]. rewrite R. cbn [rootid]. rewrite Hw. unfold abs. rewrite R, firstn_map, map_length. reflexivity. }
+  destruct Hex as (s' & Hw & H0). exists s'. split; [exact Hw|].
+  destruct (walk_n_inv _ _ _ _ _ _ _ Hw HI ltac:(intros H; exfalso; apply H; reflexivity)) as (A & B & C & D & F).
+  split; [exact B|]. split; [exact C|]. split; [exact D|]. split; [eapply Inv_same; eauto|]. split; [exact A|]. split; [exact F|exact H0].
+Qed.
 End Iter.
